@@ -38,6 +38,11 @@ class Timeout(Exception):
     pass
 
 
+class Undetermined(Exception):
+    """Raised by a system when a call's outcome is not fixed by the property and it took the branch that
+    is not checked: the transition is counted but the state is not explored further."""
+
+
 def _alarm(signum, frame):
     raise Timeout()
 
